@@ -174,10 +174,10 @@ def check_case(R, y, mask, variant, robust, prm, rng):
 def plan(tier, seed):
     q = tier == "quick"
     specs = []
-    for i in range(14 if q else 28):
-        specs.append({"kind": "random", "sub": i, "cases": 70 if q else 600, "budget_s": 110 if q else 1500})
-    for i in range(2 if q else 4):
-        specs.append({"kind": "threshold", "sub": i, "cases": 80 if q else 500, "budget_s": 110 if q else 1500})
+    for i in range(14 if q else 32):
+        specs.append({"kind": "random", "sub": i, "cases": 70 if q else 2500, "budget_s": 110 if q else 600})
+    for i in range(2 if q else 8):
+        specs.append({"kind": "threshold", "sub": i, "cases": 80 if q else 1500, "budget_s": 110 if q else 600})
     return specs
 
 
